@@ -271,12 +271,12 @@ def widthAfter (w : Nat) : List MemOp → Nat
     value is *open* (any value in range is right: reduction modulo `2^w`, a reset to 0, …). At such a
     call the run takes the next value of `rebase` (what the implementation returned there), if it is in
     range, as the new count (`memRebase`); everything else is `memStep`. Output: value and whether it was open. -/
-def memRebase (m : MemS) (isOpen : Bool) (rebase : List Nat) : MemS :=
+def memRebase (m : MemS) (isOpen : Bool) (rebase : List Int) : MemS :=
   match isOpen, rebase with
-  | true, r :: _ => if r < 2 ^ m.width then { m with count := (r : Int) } else m
+  | true, r :: _ => if 0 ≤ r ∧ r < m.modulus then { m with count := r } else m
   | _, _ => m
 
-def memRunOpen (m : MemS) (isOpen : Bool) (rebase : List Nat) : List MemOp → List (Nat × Bool)
+def memRunOpen (m : MemS) (isOpen : Bool) (rebase : List Int) : List MemOp → List (Nat × Bool)
   | [] => []
   | .call :: ops =>
     ((memRebase m isOpen rebase).call.1, isOpen)
@@ -284,6 +284,29 @@ def memRunOpen (m : MemS) (isOpen : Bool) (rebase : List Nat) : List MemOp → L
   | .setWidth w :: ops =>
     memRunOpen { m with width := w } (isOpen || !(decide (0 ≤ m.count) && decide (m.count < ((2 ^ w : Nat) : Int)))) rebase ops
   | .setCount c :: ops => memRunOpen { m with count := c } true rebase ops
+
+def memRunOpenTR (m : MemS) (isOpen : Bool) (rebase : List Int) (ops : List MemOp) (acc : Array (Nat × Bool)) :
+    List (Nat × Bool) :=
+  match ops with
+  | [] => acc.toList
+  | .call :: ops =>
+    memRunOpenTR (memRebase m isOpen rebase).call.2 false (if isOpen then rebase.tail else rebase) ops
+      (acc.push ((memRebase m isOpen rebase).call.1, isOpen))
+  | .setWidth w :: ops =>
+    memRunOpenTR { m with width := w } (isOpen || !(decide (0 ≤ m.count) && decide (m.count < ((2 ^ w : Nat) : Int)))) rebase ops acc
+  | .setCount c :: ops => memRunOpenTR { m with count := c } true rebase ops acc
+
+theorem memRunOpenTR_eq (m : MemS) (isOpen : Bool) (rebase : List Int) (ops : List MemOp) (acc : Array (Nat × Bool)) :
+    memRunOpenTR m isOpen rebase ops acc = acc.toList ++ memRunOpen m isOpen rebase ops := by
+  induction ops generalizing m isOpen rebase acc with
+  | nil => simp [memRunOpenTR, memRunOpen]
+  | cons op ops ih => cases op <;> simp [memRunOpenTR, memRunOpen, ih]
+
+def memRunOpenFast (m : MemS) (isOpen : Bool) (rebase : List Int) (ops : List MemOp) : List (Nat × Bool) :=
+  memRunOpenTR m isOpen rebase ops #[]
+
+@[csimp] theorem memRunOpen_eq_fast : @memRunOpen = @memRunOpenFast := by
+  funext m o r ops; simp [memRunOpenFast, memRunOpenTR_eq]
 
 /-! ## File-backed provider with width changes
 
@@ -308,5 +331,20 @@ def wstep (st : WState) : WStep → Out × WState
 def wtrace (st : WState) : List WStep → List (Out × WState)
   | [] => []
   | s :: ss => wstep st s :: wtrace (wstep st s).2 ss
+def wtraceTR (st : WState) (steps : List WStep) (acc : Array (Out × WState)) : List (Out × WState) :=
+  match steps with
+  | [] => acc.toList
+  | s :: ss => wtraceTR (wstep st s).2 ss (acc.push (wstep st s))
+
+theorem wtraceTR_eq (st : WState) (steps : List WStep) (acc : Array (Out × WState)) :
+    wtraceTR st steps acc = acc.toList ++ wtrace st steps := by
+  induction steps generalizing st acc with
+  | nil => simp [wtraceTR, wtrace]
+  | cons s ss ih => simp [wtraceTR, wtrace, ih]
+
+def wtraceFast (st : WState) (steps : List WStep) : List (Out × WState) := wtraceTR st steps #[]
+
+@[csimp] theorem wtrace_eq_wtraceFast : @wtrace = @wtraceFast := by
+  funext st steps; simp [wtraceFast, wtraceTR_eq]
 
 end SpVerif.SeqCount
